@@ -980,6 +980,9 @@ class Gen:
             # directed: the same small scalar with different coefficients
             # on the two sides (v + s vs v + 2*s, v - s vs v + s, ...)
             sml = self.pick(smalls)
+            match = [v for v in smalls if v.name == "d_" + var.name]
+            if match and self.flip(2, 3):
+                sml = match[0]      # named like the loop variable's helper
             lo, hi = var.rng
             lb, ub = arr.dims[0]
             forms = [(f"{var.name} + {sml.name}", lo, hi + 1),
